@@ -58,6 +58,38 @@ def sandbox(files: dict | None):
 _TRACE = None          # list being filled, or None
 _PROGRAM = None
 _WRAPPED = False
+_ROLES = None          # {node class: canonical role name}
+
+
+def node_roles() -> dict:
+    """Which node class plays which role, found by BEHAVIOUR (what the code generator builds for `*=`, `@=`, a label,
+    `.incbin`, `.include_ips`), not by class name: a renamed or re-organised class keeps its role.  The canonical names
+    are only labels the rest of the harness uses.  A probe that fails is a harness fault (raised), never a verdict."""
+    global _ROLES
+    if _ROLES is not None:
+        return _ROLES
+    from a816.program import Program
+    patch = b"PATCH" + (0x10).to_bytes(3, "big") + (1).to_bytes(2, "big") + b"\x01" + b"EOF"
+    probes = [("CodePositionNode", "*=0x008000\n", lambda ns: ns[0]),
+              ("RelocationAddressNode", "@=0x008000\n", lambda ns: ns[0]),
+              ("LabelNode", "zz_probe:\n", lambda ns: ns[0]),
+              ("IncludeIpsNode", ".include_ips 'zz_probe.ips', 0\n", lambda ns: ns[0]),
+              ("BinaryNode", ".incbin 'zz_probe.bin'\n", lambda ns: [n for n in ns if hasattr(n, "symbol_base")][0])]
+    roles = {}
+    with sandbox({"zz_probe.ips": patch, "zz_probe.bin": b"\x01\x02"}):
+        for name, src, pick in probes:
+            err, nodes = Program().parser.parse(src, "zz_probe.s")
+            if err is not None or not nodes:
+                raise RuntimeError(f"harness probe for the role {name} failed: {err}")
+            roles[type(pick(nodes))] = name
+    if len(roles) != len(probes):
+        raise RuntimeError(f"harness probes found {len(roles)} distinct node classes for {len(probes)} roles")
+    _ROLES = roles
+    return roles
+
+
+def role_name(node) -> str:
+    return node_roles().get(type(node)) or type(node).__name__
 
 
 def _install_wrappers():
@@ -65,6 +97,7 @@ def _install_wrappers():
     if _WRAPPED:
         return
     from a816.parse import nodes as N
+    node_roles()
     classes = [c for c in vars(N).values() if isinstance(c, type) and hasattr(c, "pc_after") and hasattr(c, "emit")
                and c.__module__ == N.__name__ and c.__name__ not in ("NodeProtocol", "AbstractTextNode")]
     for cls in classes:
@@ -81,9 +114,9 @@ def _install_wrappers():
                     try:
                         out = orig(self, addr)
                     except BaseException:
-                        _TRACE.append((meth, id(self), type(self).__name__, addr.logical_value, pc, None))
+                        _TRACE.append((meth, id(self), role_name(self), addr.logical_value, pc, None))
                         raise
-                    _TRACE.append((meth, id(self), type(self).__name__, addr.logical_value, pc,
+                    _TRACE.append((meth, id(self), role_name(self), addr.logical_value, pc,
                                    out.logical_value if meth == "pc_after" else bytes(out)))
                     return out
                 return wrapper
@@ -100,9 +133,9 @@ def _install_wrappers():
                 try:
                     out = orig(self, addr)
                 except BaseException:
-                    _TRACE.append((meth, id(self), type(self).__name__, addr.logical_value, pc, None))
+                    _TRACE.append((meth, id(self), role_name(self), addr.logical_value, pc, None))
                     raise
-                _TRACE.append((meth, id(self), type(self).__name__, addr.logical_value, pc,
+                _TRACE.append((meth, id(self), role_name(self), addr.logical_value, pc,
                                out.logical_value if meth == "pc_after" else bytes(out)))
                 return out
             return wrapper
@@ -193,6 +226,6 @@ def assemble(src: str, files: dict | None = None, rom: str | None = None, define
                     p1.append(rec)
                 else:
                     p2.append(rec)
-            out["trace"] = {"nodes": [type(n).__name__ for n in nodes], "pass1": p1, "pass2": p2, "emit": em,
+            out["trace"] = {"nodes": [role_name(n) for n in nodes], "pass1": p1, "pass2": p2, "emit": em,
                             "end_pc": program.resolver.pc}
     return out
